@@ -7,6 +7,7 @@ package c01
 import (
 	"bytes"
 	"context"
+	"encoding/hex"
 	"encoding/json"
 	"fmt"
 	"strings"
@@ -40,6 +41,32 @@ type Case struct {
 	// Pre: index into preludes - what a component file carries around its content (leading
 	// comment, blank lines, trailing comment); 0 = nothing. Only file-based sinks use it.
 	Pre int `json:"pre,omitempty"`
+	// Hex: the value as hex bytes when it is not valid UTF-8 (JSON cannot carry such a string);
+	// Value is empty then. Only the parse and the canary are asserted for such values.
+	Hex string `json:"hex,omitempty"`
+	// Pad: the value is preceded by this many bytes of harmless filler ("ab ab ab ..."): values
+	// longer than the 4 KiB / 64 KiB blocks that writers and escapers like to work in.
+	Pad int `json:"pad,omitempty"`
+}
+
+// norm moves a value that is not valid UTF-8 into Hex.
+func norm(c Case) Case {
+	if c.Hex == "" && !utf8.ValidString(c.Value) {
+		c.Hex, c.Value = hex.EncodeToString([]byte(c.Value)), ""
+	}
+	return c
+}
+
+// full returns the case with Value holding the complete value (filler + bytes).
+func full(c Case) Case {
+	if c.Hex != "" {
+		b, _ := hex.DecodeString(c.Hex)
+		c.Value = string(b)
+	}
+	if c.Pad > 0 {
+		c.Value = strings.Repeat("ab ", c.Pad/3+1)[:c.Pad] + c.Value
+	}
+	return c
 }
 
 // preludes: text before / after the content of every component file (not the page, not layouts).
@@ -149,9 +176,9 @@ type program struct {
 	tpl     string            // otherwise RenderString
 	attr    string            // "" = sink is the text of data-m=s; otherwise the attribute name
 	useNb   bool
-	jsonish bool // static include prop: values starting with { or [ are decoded (documented)
-	multi   bool // the sink occurs several times: only parse-equality and the canary are asserted
-	rawish  bool // raw text element: only parse-equality and the canary are asserted
+	jsonish bool   // static include prop: values starting with { or [ are decoded (documented)
+	multi   bool   // the sink occurs several times: only parse-equality and the canary are asserted
+	rawish  bool   // raw text element: only parse-equality and the canary are asserted
 	suf     string // static text that follows the value at the sink (after evaluation of its own mustaches)
 }
 
@@ -427,7 +454,12 @@ func baseline(c Case, p program) (string, error) {
 func collapse(s string) string { return strings.Join(strings.Fields(s), " ") }
 
 func check(c Case) error {
+	loose := c.Hex != ""
+	c = full(c)
 	p := build(c)
+	if loose {
+		p.rawish = true
+	}
 	want, err := baseline(c, p)
 	if err != nil {
 		return err
@@ -506,6 +538,10 @@ func classify(c Case) (bool, []string) {
 	if c.Carrier != "" {
 		cls = append(cls, "carrier="+c.Carrier)
 	}
+	if c.Hex != "" {
+		cls = append(cls, "value-not-valid-utf8")
+		c = full(c)
+	}
 	if strings.Contains(c.Value, "{{") {
 		cls = append(cls, "value-has-mustache")
 	}
@@ -571,8 +607,29 @@ func TestProp(t *testing.T) {
 		}
 		values = append(values, "</"+strings.ToUpper(tag)+"><img src=x onerror=a>", "</"+mixed+"><img src=x onerror=a>", "</"+strings.ToUpper(tag[:1])+tag[1:]+" ><b id=i>")
 	}
+	// values that are not valid UTF-8: a lone lead byte directly in front of each special
+	// character, truncated sequences, stray continuation bytes
+	for _, v := range []string{"\xc3<img src=x onerror=a \xc3>", "\xe2\x82<script>alert(1)\xe2\x82</script>", "\xf0\"\xf0>\xf0<b x=y>", "\xc3&lt;\xc3<i>", "\xff<p>\xfe</p>", "\x80<\x80/p\x80>", "a\xc3\"\xc3 onclick=\xc3\"b", "\xed\xa0\x80<u>", "{{ secret }}\xc3<s>"} {
+		values = append(values, v)
+	}
 	i := 0
 	ok := true
+	// long values: filler up to and across 4 KiB / 64 KiB boundaries followed by hostile tails
+	for _, pad := range []int{4080, 4090, 4096, 8190, 65530} {
+		for ti, tail := range []string{`" onmouseover="a" x="><script>alert(1)</script>`, `<img src=x onerror=a>{{ secret }}`, `'><b>&lt;`} {
+			for si, sk := range sinks {
+				i++
+				if i%shards != shard || (!run.Thorough() && pad > 9000 && (si+ti)%4 != 0) {
+					continue
+				}
+				c := Case{Sink: sk, Enc: encs[(si+ti)%len(encs)], Nb: 0, Value: tail, Pad: pad}
+				nt, cls := classify(c)
+				if !run.Each(rec, "enum", c, nt, append(cls, "long-value"), check) {
+					ok = false
+				}
+			}
+		}
+	}
 	for vi, v := range values {
 		for si, s := range sinks {
 			for ni := range neighbourhoods {
@@ -592,6 +649,7 @@ func TestProp(t *testing.T) {
 					if !applicable(c) {
 						continue
 					}
+					c = norm(c)
 					nt, cls := classify(c)
 					if !run.Each(rec, "enum", c, nt, cls, check) {
 						ok = false
@@ -631,7 +689,22 @@ func TestProp(t *testing.T) {
 		if !applicable(c) {
 			c.Value = "<" + c.Value
 		}
-		return c
+		switch rapid.IntRange(0, 19).Draw(t, "shape") {
+		case 0:
+			// a lone lead byte in front of every special character
+			var lb strings.Builder
+			lead := rapid.SampledFrom([]string{"\xc3", "\xe2", "\xf0", "\xe2\x82", "\x80"}).Draw(t, "lead")
+			for _, r := range c.Value {
+				if strings.ContainsRune("<>&\"'", r) {
+					lb.WriteString(lead)
+				}
+				lb.WriteRune(r)
+			}
+			c.Value = lb.String()
+		case 1:
+			c.Pad = rapid.SampledFrom([]int{4000, 4090, 4096, 5000, 8192}).Draw(t, "pad")
+		}
+		return norm(c)
 	}, classify, check)
 }
 
